@@ -55,9 +55,12 @@ type verifC02Script struct {
 	entered chan struct{}
 	release chan struct{}
 	hexit   chan struct{}
+	// distance of ctx.Deadline() seen by the handler when it is entered, in ms (-1: no deadline)
+	deadlineMs int64
 }
 
 type verifC02Server struct {
+	base    int // method names are unique in the whole process: the breaker interceptor keeps state per full method name
 	addr    string
 	conn    *grpc.ClientConn
 	next    int
@@ -65,7 +68,8 @@ type verifC02Server struct {
 }
 
 var (
-	verifC02Servers = map[string]*verifC02Server{}
+	verifC02Servers  = map[string]*verifC02Server{}
+	verifC02NextBase = 0
 )
 
 type verifC02Err struct{ msg string }
@@ -119,7 +123,7 @@ func verifC02FreeAddr() string {
 func (s *verifC02Server) desc() *grpc.ServiceDesc {
 	d := &grpc.ServiceDesc{ServiceName: "verif.C02", HandlerType: (*interface{})(nil)}
 	for i := 0; i < verifC02Methods; i++ {
-		name := "Call" + strconv.Itoa(i)
+		name := "Call" + strconv.Itoa(s.base+i)
 		full := "/verif.C02/" + name
 		d.Methods = append(d.Methods, grpc.MethodDesc{
 			MethodName: name,
@@ -135,6 +139,10 @@ func (s *verifC02Server) desc() *grpc.ServiceDesc {
 					}
 					sc := v.(*verifC02Script)
 					defer close(sc.hexit)
+					sc.deadlineMs = -1
+					if dl, ok := ctx.Deadline(); ok {
+						sc.deadlineMs = time.Until(dl).Milliseconds()
+					}
 					close(sc.entered)
 					<-sc.release // ignores ctx on purpose: an overrunning handler
 					if sc.spec.T == "panic" {
@@ -164,7 +172,8 @@ func verifC02ServerFor(timeoutMs, cpu int64) *verifC02Server {
 	if s, ok := verifC02Servers[key]; ok && s.next < verifC02Methods {
 		return s
 	}
-	s := &verifC02Server{addr: verifC02FreeAddr()}
+	s := &verifC02Server{addr: verifC02FreeAddr(), base: verifC02NextBase}
+	verifC02NextBase += verifC02Methods
 	svr, err := NewServer(ServerConfig{
 		Config:       service.Config{},
 		ListenOn:     s.addr,
@@ -198,7 +207,7 @@ func verifC02ServerFor(timeoutMs, cpu int64) *verifC02Server {
 
 func verifC02Run(c *verifC02Case) map[string]any {
 	s := verifC02ServerFor(c.TimeoutMs, c.Cpu)
-	full := "/verif.C02/Call" + strconv.Itoa(s.next)
+	full := "/verif.C02/Call" + strconv.Itoa(s.base+s.next)
 	s.next++
 	sc := &verifC02Script{spec: c.H, entered: make(chan struct{}), release: make(chan struct{}), hexit: make(chan struct{})}
 	s.scripts.Store(full, sc)
@@ -208,12 +217,16 @@ func verifC02Run(c *verifC02Case) map[string]any {
 		err error
 	}
 	resc := make(chan result, 1)
+	var replyMs int64
+	var t0 time.Time
+	t0 = time.Now()
 	go func() {
 		out := new(wrapperspb.Int64Value)
 		err := s.conn.Invoke(context.Background(), full, wrapperspb.Int64(1), out)
 		if err != nil {
 			out = nil
 		}
+		replyMs = time.Since(t0).Milliseconds() // written before the send, read after the receive
 		resc <- result{out, err}
 	}()
 
@@ -252,7 +265,11 @@ func verifC02Run(c *verifC02Case) map[string]any {
 			return map[string]any{"hung": true}
 		}
 	}
-	out := map[string]any{"hung": false, "entered": entered, "prompt": prompt, "code": int(status.Code(res.err))}
+	out := map[string]any{"hung": false, "entered": entered, "prompt": prompt, "code": int(status.Code(res.err)),
+		"reply_ms": replyMs, "deadline_ms": int64(-1)}
+	if entered {
+		out["deadline_ms"] = sc.deadlineMs
+	}
 	if res.out != nil {
 		out["resp"] = res.out.Value
 	}
